@@ -26,8 +26,8 @@ SPEC = {
         "batches that mix handles: the claim is per value tuple (each is the filter of a caller that passed the checks of its own handle), not per statement",
     ],
     "manifest": {
-        "text": "Coq theorems (Props/C12.v) over an executable model of every sqlgen.DB method, the limit checks and the batched fetch: for all limits, tables, contexts and operations every statement issued is confined to the limit and a non-complying call is rejected having issued nothing; the model is run against sqlgen on a fake database/sql driver on generated cases on every run (correspondence) and the confinement of every recorded statement is checked directly by parsing it (oracle).",
-        "note": "Trusted: Coq kernel + vm_compute; the hand-written model (tied to the code only by the correspondence check); the Go harness and the fake SQL server. Columns with binary/string/json tags, custom driver.Valuer types and time values are outside the model; free-text SelectOptions.Where is opaque (the claim is about the filter part). Covers single methods incl. SelectOptions and Count, bulk methods, concurrent batched callers on one or several handles sharing the batch function, and method sequences in one transaction.",
+        "text": "Coq theorems (Props/C12.v) over an executable model of every exported method of sqlgen.DB -- by name: the list of methods and the kind of database call each can reach is extracted from sqlgen/*.go on every run (go/ast) and a theorem checks that the model has a case with the same kind of access for each --, the limit checks, the chains of WithShardLimit / WithDynamicLimit / WithPanicOnNoIndex calls that derive handles, and the batched fetch: for all limits, tables, contexts and calls every statement issued (EXPLAIN included) is confined to every limit of the handle and of the handles it derives from, a non-complying call is rejected having issued nothing, and (composed with C10) the rows handed to a batched caller lie in its shard; the model is run against sqlgen on a fake database/sql driver on generated cases on every run (correspondence) and the confinement of every recorded statement is checked directly by parsing it (oracle).",
+        "note": "Trusted: Coq kernel + vm_compute; the hand-written model (tied to the code only by the correspondence check); the Go harness and the fake SQL server. Columns with binary/string/json tags, custom driver.Valuer types and time values are outside the model; free-text SelectOptions.Where is opaque (the claim is about the filter part). Covers all 18 exported methods of DB (row-level methods incl. SelectOptions, Count and BaseQuery called directly; WithTx / WithExistingTx / HasTx / QueryExecer; the With* methods as chains, refused when the limit is already set), bulk methods, concurrent batched callers on one or several handles sharing the batch function, and method sequences in one transaction.",
         "technique": "Coq proof over executable model + differential correspondence check (vm_compute) + property oracle on the statements received by a fake SQL driver",
     },
 }
